@@ -188,6 +188,9 @@ pub struct StdBroker {
     /// after its own Connection.Close the server still answers a (crossing) Connection.Close of
     /// the client with CloseOk, as RabbitMQ does in its closing state
     pub answer_crossing_close: bool,
+    /// frames the server still had in its pipe for a channel when the client's Channel.Close
+    /// arrived: sent ahead of the CloseOk
+    pub before_channel_close_ok: Vec<AMQPFrame>,
     /// frames the broker could not make sense of (envelope parser vs amq-protocol disagreement)
     pub parse_disagreements: Vec<String>,
     /// do not answer these (class, method) requests at all
@@ -243,6 +246,7 @@ impl StdBroker {
             client_closed: false,
             server_closed: false,
             answer_crossing_close: false,
+            before_channel_close_ok: Vec::new(),
             parse_disagreements: Vec::new(),
             mute: Vec::new(),
             replies: Vec::new(),
@@ -307,7 +311,9 @@ impl StdBroker {
                 self.open_channels.remove(&chan);
                 self.next_seq(chan);
                 self.confirms.remove(&chan);
-                f(Channel(channel::AMQPMethod::CloseOk(channel::CloseOk {})))
+                let mut v: Vec<AMQPFrame> = self.before_channel_close_ok.drain(..).collect();
+                v.push(AMQPFrame::Method(chan, Channel(channel::AMQPMethod::CloseOk(channel::CloseOk {}))));
+                Some(v)
             }
             Channel(channel::AMQPMethod::CloseOk(_)) => {
                 self.open_channels.remove(&chan);
